@@ -735,7 +735,7 @@ func (m *Model) step(op *Op, got *Result) string {
 			if er.Unspec || er.Samples > 0 {
 				return m.resync(op, got, "predicate semantics unspecified")
 			}
-			if er.Status == EvInvalid {
+			if er.Status == EvInvalid || RootInvalid(op.Pred) {
 				if !errClass(got) {
 					return "invalid predicate accepted"
 				}
